@@ -690,7 +690,7 @@ def broker_check(pid, tier, plan, own, rule):
 
 @check("C01")
 def c01(tier):
-    return broker_check("C01", tier, [("RoutingSpec", "cover", 4, 5, "mockSuccess"), ("RoutingSpec", "paths", 2, 3, "mockSuccess")], {"C01"},
+    return broker_check("C01", tier, [("RoutingSpec", "cover", 3, 4, "mockSuccess"), ("RoutingSpec", "paths", 2, 3, "mockSuccess")], {"C01"},
                         "Broker specification, configuration routing: 2 network clients + 1 in-process subscriber, filters {a/b,a/+,a/#,#,+/b}, names "
                         "{a/b,a,a/b/c,c}, publish QoS x granted QoS in {0,1,2}^2, payloads tiny/empty/big; transition cover and all paths; after every "
                         "step the PUBLISH packets on every connection (topic, payload bytes, QoS, retain flag) are compared with the specification's bag.")
@@ -727,7 +727,7 @@ def c09(tier):
 
 @check("C10")
 def c10(tier):
-    return broker_check("C10", tier, [("SessSpec", "cover", 6, 7, "mockSuccess"), ("SessSpec", "paths", 4, 4, "mockSuccess")], {"C10", "C01", "C07"},
+    return broker_check("C10", tier, [("SessSpec", "cover", 6, 7, "mockSuccess"), ("Sess1Spec", "paths", 6, 7, "mockSuccess")], {"C10", "C01", "C07"},
                         "configuration session: connect (CleanSession 0/1) / subscribe / unsubscribe / DISCONNECT / cut over two client ids and two slots, probe "
                         "publishes; SessionPresent and deliveries to restored subscriptions compared.")
 
